@@ -1467,3 +1467,129 @@ func (c *Ctx) loggerOptionRule(rule string) {
 		r.Check(rule, FnKey(fn)+":sets", c.Pos(fn.Pos()), ok, name+" must set exactly "+w[0]+", found "+strings.Join(stores, ", "))
 	}
 }
+
+// emptiedDocRule: the pass that strips directive lines from every comment group does not leave an emptied group linked
+// as the file's doc comment.
+func (c *Ctx) emptiedDocRule(rule string) {
+	r := c.R
+	r.Rule(rule, "util.RemoveMatchComments (strips lines from every group of File.Comments) returns only after File.Doc was dropped when it lost all its lines: every return is reached through `file.Doc = nil`, or under file.Doc == nil, or under len(file.Doc.List) != 0 (an empty group has no position: the next position lookup over the file panics)")
+	fn := c.MustFunc(rule, "/pkg/util", "RemoveMatchComments")
+	if fn == nil {
+		return
+	}
+	var fileParam string
+	for _, p := range fn.Params {
+		if strings.HasSuffix(p.Type().String(), "go/ast.File") {
+			fileParam = "param:" + p.Name()
+		}
+	}
+	if fileParam == "" {
+		r.Undecided(rule, FnKey(fn), "no *ast.File parameter")
+		return
+	}
+	blocked := map[*ssa.BasicBlock]bool{}
+	for _, b := range fn.Blocks {
+		for _, in := range b.Instrs {
+			st, ok := in.(*ssa.Store)
+			if !ok {
+				continue
+			}
+			fa, ok := st.Addr.(*ssa.FieldAddr)
+			k, isK := st.Val.(*ssa.Const)
+			if ok && isK && k.IsNil() && core.FieldName(fa.X.Type(), fa.Field) == "ast.File.Doc" && c.O.Of(fa.X).String() == fileParam {
+				blocked[b] = true
+			}
+		}
+	}
+	isDoc := func(t *core.Term) bool { return t.IsField("ast.File.Doc") && t.Args[0].String() == fileParam }
+	docNil := c.M(true, isNilCmp(isDoc))
+	nonEmpty := c.M(false, eqConst(func(t *core.Term) bool {
+		return t.IsCallTo("builtin:len") && t.Args[0].IsField("ast.CommentGroup.List") && isDoc(t.Args[0].Args[0])
+	}, "0"))
+	av := c.ReachAvoid(fn, blocked)
+	okAll := len(blocked) > 0
+	var bad core.DNF
+	for _, ret := range core.Returns(fn) {
+		if blocked[ret.Block()] {
+			continue
+		}
+		d := av.At(ret.Block())
+		if d != nil && !d.Implies(docNil, nonEmpty) {
+			okAll = false
+			bad = d
+		}
+	}
+	r.Check(rule, FnKey(fn)+":drops-emptied-file-doc", c.Pos(fn.Pos()), okAll, "RemoveMatchComments can return with an emptied comment group still linked as File.Doc; reach avoiding the detachment: "+bad.Describe(c.O))
+}
+
+// overlayRule: the loader never lets the go command read the file at the output path.
+func (c *Ctx) overlayRule(rule string) {
+	r := c.R
+	r.Rule(rule, "the packages.Config given to packages.Load carries an Overlay computed from the output path: a map whose key is filepath.Abs(<output path>) and whose value is \"package \" + <package name parsed from the setup file (PackageClauseOnly)> – the go command reads the package clause of every file in the directory, so the previous output (truncated inside its package name, or from before a rename) must be presented as an empty file of the setup file's package (finding F26)")
+	n := 0
+	for _, fn := range c.P.Funcs() {
+		p := pkgOf(fn)
+		if p == nil || p.Path() != mod+"/pkg/parser" {
+			continue
+		}
+		for _, b := range fn.Blocks {
+			for _, in := range b.Instrs {
+				a, ok := in.(*ssa.Alloc)
+				if !ok || !strings.HasSuffix(a.Type().String(), "go/packages.Config") {
+					continue
+				}
+				n++
+				f := LitFields(a)
+				ov := f["Overlay"]
+				if ov == nil {
+					r.Check(rule, FnKey(fn)+":Overlay", c.InstrPos(a), false, "the loader configuration has no Overlay: whatever is at the output path is read by the go command")
+					continue
+				}
+				t := c.O.Of(ov)
+				cv, isCall := t.V.(*ssa.Call)
+				var helper *ssa.Function
+				if isCall {
+					helper = cv.Call.StaticCallee()
+				}
+				if helper == nil || helper.Blocks == nil {
+					r.Check(rule, FnKey(fn)+":Overlay", c.InstrPos(a), false, "Overlay is not computed by a module function from the paths: "+t.String())
+					continue
+				}
+				// the output path handed to the helper is the path whose os.Stat result the ParseFile hook compares (parameter of the constructor)
+				dstArg := -1
+				for i, arg := range t.Args {
+					if arg.Kind == "param" && strings.Contains(strings.ToLower(arg.Name), "dst") {
+						dstArg = i
+					}
+				}
+				if dstArg < 0 || dstArg >= len(helper.Params) {
+					r.Check(rule, FnKey(fn)+":Overlay", c.InstrPos(a), false, "the overlay helper does not receive the output path parameter: "+t.String())
+					continue
+				}
+				dstP := "param:" + helper.Params[dstArg].Name()
+				okKey, okVal, nUpd := false, false, 0
+				for _, hb := range helper.Blocks {
+					for _, hin := range hb.Instrs {
+						mu, isMU := hin.(*ssa.MapUpdate)
+						if !isMU {
+							continue
+						}
+						nUpd++
+						k := c.O.Of(mu.Key)
+						okKey = k.Contains(func(s *core.Term) bool { return s.IsCallTo("path/filepath.Abs") && s.Args[0].String() == dstP })
+						v := c.O.Of(mu.Value)
+						okVal = v.Contains(func(s *core.Term) bool { return s.Is("const", `"package "`) }) &&
+							v.Contains(func(s *core.Term) bool {
+								return s.IsField("ast.Ident.Name") && s.Contains(func(q *core.Term) bool {
+									return q.IsCallTo("go/parser.ParseFile") && len(q.Args) == 4 && q.Args[3].Is("const", "1")
+								})
+							})
+					}
+				}
+				r.Check(rule, FnKey(fn)+":Overlay", c.InstrPos(a), nUpd == 1 && okKey && okVal,
+					sprintf("the overlay must map filepath.Abs(output path) to \"package <name of the setup file's package>\" (updates %d, key ok %v, value ok %v)", nUpd, okKey, okVal))
+			}
+		}
+	}
+	r.Floor(rule, "packages.Config literals in the parser", n, 1)
+}
